@@ -21,13 +21,14 @@ from driver_main import CARGO_ENV, REPLAYS, SIM, HarnessError, log
 MIRI_TARGET = os.path.join(SIM, "target", "miri")
 
 
-def miri_cmd(package, engine, seed, lo, hi, free, miri_seeds, thorough):
-    flags = "-Zmiri-disable-stacked-borrows -Zmiri-preemption-rate=0.1"
+def miri_cmd(package, engine, seed, lo, hi, free, miri_seeds, thorough, extra_flags="", extra_env=None):
+    flags = "-Zmiri-disable-stacked-borrows -Zmiri-preemption-rate=0.1 " + extra_flags
     if isinstance(miri_seeds, tuple):
         flags += " -Zmiri-many-seeds=%d..%d" % miri_seeds
     else:
         flags += " -Zmiri-seed=%d" % miri_seeds
     env = dict(CARGO_ENV, MIRIFLAGS=flags)
+    env.update(extra_env or {})
     cmd = ["cargo", "+nightly", "miri", "run", "--offline", "-q", "-p", package, "--target-dir", MIRI_TARGET, "--",
            engine, "run", "--seed", str(seed), "--from", str(lo), "--to", str(hi)]
     if free:
@@ -37,8 +38,8 @@ def miri_cmd(package, engine, seed, lo, hi, free, miri_seeds, thorough):
     return cmd, env
 
 
-def run_miri(package, engine, seed, lo, hi, free, miri_seeds, thorough=True, timeout=3600):
-    cmd, env = miri_cmd(package, engine, seed, lo, hi, free, miri_seeds, thorough)
+def run_miri(package, engine, seed, lo, hi, free, miri_seeds, thorough=True, timeout=3600, extra_flags="", extra_env=None):
+    cmd, env = miri_cmd(package, engine, seed, lo, hi, free, miri_seeds, thorough, extra_flags, extra_env)
     try:
         p = subprocess.run(cmd, cwd=SIM, env=env, stdout=subprocess.PIPE, stderr=subprocess.PIPE, text=True, timeout=timeout, errors="replace")
     except subprocess.TimeoutExpired:
@@ -72,14 +73,14 @@ def narrow(spec, seed, lo, hi, miri_seeds):
     s0, s1 = miri_seeds
     fseed = None
     for ms in range(s0, s1):
-        r = run_miri(spec["package"], spec["engine"], seed, lo, hi, spec["free"], ms)
+        r = run_miri(spec["package"], spec["engine"], seed, lo, hi, spec["free"], ms, extra_flags=spec.get("flags", ""), extra_env=spec.get("env"))
         if r["rc"] != 0 or r["error"] or r["fails"]:
             fseed = ms
             break
     if fseed is None:
         return None
     for i in range(lo, hi):
-        r = run_miri(spec["package"], spec["engine"], seed, i, i + 1, spec["free"], fseed)
+        r = run_miri(spec["package"], spec["engine"], seed, i, i + 1, spec["free"], fseed, extra_flags=spec.get("flags", ""), extra_env=spec.get("env"))
         if r["rc"] != 0 or r["error"] or r["fails"]:
             return {"run": i, "miri_seed": fseed, "result": r}
     return {"run": lo, "run_to": hi, "miri_seed": fseed, "result": None}
@@ -94,7 +95,7 @@ def phase(prop, tier, seed, report, specs, accept=None):
         plans = spec["plans"] if tier == "thorough" else max(4, spec["plans"] // 8)
         nseeds = spec["seeds"] if tier == "thorough" else max(2, spec["seeds"] // 8)
         miri_seeds = (0, nseeds)
-        r = run_miri(spec["package"], spec["engine"], seed, 0, plans, spec["free"], miri_seeds)
+        r = run_miri(spec["package"], spec["engine"], seed, 0, plans, spec["free"], miri_seeds, extra_flags=spec.get("flags", ""), extra_env=spec.get("env"))
         wall = time.time() - t0
         mode = "B (free-running threads, Miri scheduler)" if spec["free"] else "A (baton schedules)"
         report["jobs"].append({"engine": "miri:%s" % spec["engine"], "mode": mode, "plans": plans, "miri_seeds": nseeds,
@@ -119,6 +120,7 @@ def phase(prop, tier, seed, report, specs, accept=None):
         path = os.path.join(REPLAYS, prop, "miri-%s-%s-seed%d.json" % (spec["engine"], "free" if spec["free"] else "baton", seed))
         doc = {"kind": "miri", "property": prop, "tier": tier, "seed": seed, "package": spec["package"], "engine": spec["engine"], "free": spec["free"],
                "run": where.get("run"), "run_to": where.get("run_to", (where.get("run") or 0) + 1), "miri_seed": where.get("miri_seed"),
+               "flags": spec.get("flags", ""), "env": spec.get("env"),
                "violation": {"class": cls, "site": spec["engine"], "message": msg}, "stderr_tail": r.get("stderr_tail", "")}
         with open(path, "w") as f:
             json.dump(doc, f, indent=1, sort_keys=True)
@@ -129,7 +131,7 @@ def phase(prop, tier, seed, report, specs, accept=None):
 
 def replay(prop, doc, path):
     ms = doc.get("miri_seed")
-    r = run_miri(doc["package"], doc["engine"], doc["seed"], doc["run"], doc["run_to"], doc["free"], ms if ms is not None else (0, 16))
+    r = run_miri(doc["package"], doc["engine"], doc["seed"], doc["run"], doc["run_to"], doc["free"], ms if ms is not None else (0, 16), extra_flags=doc.get("flags", ""), extra_env=doc.get("env"))
     if r["rc"] != 0 or r["error"] or r["fails"]:
         log("VIOLATION property=%s replay=%s" % (prop, path))
         log("#   %s" % (r["error"] or (r["fails"][0] if r["fails"] else "")))
